@@ -97,11 +97,19 @@ def module_state():
 
 
 def canon(world, with_globals=True):
+    """digest of what the purity properties speak about: the shared argument objects (every field, plus any attribute
+    smuggled onto them) and the library's built-in Mixtures / Components singletons."""
     body = {"world": ser(world)}
     if with_globals:
         body["singletons"] = singletons()
-        body["class_defaults"] = class_defaults()
-        body["module_state"] = module_state()
+    return hashlib.sha256(json.dumps(body, sort_keys=True).encode()).hexdigest()
+
+
+def hidden_state():
+    """digest of library state that is NOT one of the caller's objects: attrs class defaults and module-level data.
+    A change here is hidden state, but not by itself a violation (a fully keyed memo is legitimate): it is recorded,
+    and it is the near-collision operations in the menus that decide whether such state ever changes a result."""
+    body = {"class_defaults": class_defaults(), "module_state": module_state()}
     return hashlib.sha256(json.dumps(body, sort_keys=True).encode()).hexdigest()
 
 
